@@ -1,8 +1,8 @@
 #!/bin/bash
-# tools/seed_eval.sh <prop> <diff> [tier] : apply <diff> to a scratch worktree of /repo HEAD, run ./check <prop>
+# tools/seed_eval.sh <prop> <diff> [tier] [only-regex] : apply <diff> to a scratch worktree of /repo HEAD, run ./check <prop>
 # against it (VERIF_REPO), print the verdict line, remove the worktree.  Development aid only.
 set -u
-prop=$1; diff=$2; tier=${3:-quick}
+prop=$1; diff=$2; tier=${3:-quick}; only=${4:-}
 name=$(basename "$diff" .diff)
 wt=/tmp/seedeval/$prop-$name
 rm -rf "$wt"; mkdir -p /tmp/seedeval
@@ -10,7 +10,7 @@ git -C /repo worktree add -q --detach "$wt" HEAD || exit 3
 if ! git -C "$wt" apply "$diff"; then echo "SEED $prop $name: patch does not apply"; git -C /repo worktree remove --force "$wt"; exit 3; fi
 cd /verif
 out=/verif/.work/seed-$prop-$name.out
-VERIF_REPO="$wt" timeout 3600 ./check "$prop" --tier "$tier" > "$out" 2>&1
+if [ -n "$only" ]; then VERIF_REPO="$wt" timeout 7200 ./check "$prop" --tier "$tier" --only "$only" > "$out" 2>&1; else VERIF_REPO="$wt" timeout 3600 ./check "$prop" --tier "$tier" > "$out" 2>&1; fi
 rc=$?
 echo "SEED $prop $name: exit=$rc $(grep -c '^VIOLATION' "$out") violation line(s); $(grep -m1 '^VIOLATION' "$out" | cut -c1-220)"
 tag=$(python3 -c "import hashlib,sys;print(hashlib.sha1(sys.argv[1].encode()).hexdigest()[:8])" "$wt")
